@@ -79,29 +79,45 @@ def run_harness(ctx, cases_path, ntrees, real, runs, children, timeout):
     return tg, tt
 
 
-def judge(ctx, name, path, report=True):
-    acc, nev, mism = ctx.validate_traces("RedirectsTrace", "RedirectsTrace", path, SPEC, name=name, timeout=1200)
-    nontrivial, shown = 0, 0
+def judge(ctx, name, paths, report=True, parallel=None):
+    """leg V over the concatenation of the recorded trace files; returns per-leg counts of non-trivial cases"""
+    path = paths[0]
+    if len(paths) > 1:
+        path = os.path.join(ctx.work, "trace_all.ndjson")
+        with open(path, "w") as o:
+            for p in paths:
+                with open(p) as f:
+                    o.write(f.read())
+    acc, nev, mism = ctx.validate_traces("RedirectsTrace", "RedirectsTrace", path, SPEC, name=name, timeout=1200, parallel=parallel)
+    nontrivial, ncases, shown = {}, {}, {}
     for ev in split_events(path):
         builds = [e for e in ev if e["k"] == "build"]
+        leg = builds[0].get("leg", "?") if builds else "?"
+        ncases[leg] = ncases.get(leg, 0) + 1
         if any(b["out"] for b in builds):
-            nontrivial += 1
-            ctx.distinct([e["f"] for e in ev if e["k"] == "file"] if not any(e.get("real") for e in ev) else "real kernel tree")
-            if shown < 2:
-                shown += 1
+            nontrivial[leg] = nontrivial.get(leg, 0) + 1
+            real = any(e.get("real") for e in ev)
+            ctx.distinct("real kernel tree" if real else [e["f"] for e in ev if e["k"] == "file"])
+            if shown.get(leg, 0) < 2:
+                shown[leg] = shown.get(leg, 0) + 1
                 files = [e["f"] for e in ev if e["k"] == "file"]
-                ctx.sample({"leg": name, "files": [f for f in files if f["decls"]][:2], "n_files": len(files),
+                ctx.sample({"leg": leg, "real_kernel_tree": real, "n_files": len(files),
+                            "files": [f for f in files if any(l[0] == "R" for d in f["decls"] for l in d["doc"])][:2],
                             "builds": [{"proc": b["proc"], "out": b["out"]} for b in builds[:3]]})
+    ctx.cov["legs"][name]["cases_by_leg"] = ncases
+    ctx.cov["legs"][name]["nontrivial_by_leg"] = nontrivial
     if report:
         seen = set()
         for m in mism:
             why = m["mismatch"][2][0] if len(m["mismatch"]) > 2 and m["mismatch"][2] else "?"
-            if why in seen or len(ctx.violations) >= 4:
+            ev = m["case_events"][m["line_in_case"] - 1]
+            key = (why, ev.get("leg"), bool(ev.get("real")))
+            if key in seen or len(ctx.violations) >= 4:
                 continue
-            seen.add(why)
-            ctx.violation({"leg": name, "mismatch": m["mismatch"], "event": m["case_events"][m["line_in_case"] - 1]},
+            seen.add(key)
+            ctx.violation({"leg": ev.get("leg"), "real_kernel_tree": bool(ev.get("real")), "mismatch": m["mismatch"], "event": ev},
                           case_to_replay(m["case_events"]))
-    return acc, nev, mism, nontrivial
+    return acc, nev, mism
 
 
 def run(ctx):
@@ -140,11 +156,11 @@ def run(ctx):
     # ---- legs G and T on the real package (one go test run)
     tg, tt = run_harness(ctx, gcases, 40 if q else 600, True, runs, children, 1500)
 
-    # ---- leg V: the TLA+ monitor judges every recorded event
-    accg, _, mg, ng = judge(ctx, "G-trees", tg)
-    acct, _, mt, nt = judge(ctx, "T-random+kernel", tt)
-    ctx.cov["legs"]["G-trees"]["nontrivial"] = ng
-    ctx.cov["legs"]["T-random+kernel"]["nontrivial"] = nt
+    # ---- leg V: the TLA+ monitor judges every recorded event (G and T traces in one wave of TLC processes)
+    _, _, mism = judge(ctx, "V-G+T", [tg, tt], parallel=6 if q else None)
+    if mism and not any(m["case_events"][m["line_in_case"] - 1].get("leg") == "G" for m in mism):
+        # TLC stops at the first mismatch of a chunk (the big random trees come first): look for a small reproducer as well
+        judge(ctx, "V-G-small-reproducer", [tg], parallel=4)
     ctx.cov["builds_per_tree"] = {"same_process": runs, "child_processes": children}
     ctx.cov["exhaustive"] = not ctx.violations
     ctx.cov["explanation"] = ("exhaustive = every tree of the TLC small scope (thorough: DocLen 3, MaxDecls 3, MaxFiles 3) was written out and "
@@ -158,7 +174,7 @@ def replay(ctx, path):
     with open(cf, "w") as f:
         f.write(json.dumps({"files": [], "real": True} if rep.get("real") else {"files": rep["files"]}) + "\n")
     tg, _ = run_harness(ctx, cf, 0, False, 40, 3, 600)
-    acc, nev, mism, _ = judge(ctx, "replay", tg, report=False)
+    acc, nev, mism = judge(ctx, "replay", [tg], report=False, parallel=1)
     for m in mism:
         ctx.violation({"leg": "replay", "mismatch": m["mismatch"]}, rep)
     ctx.cov["states"] = max(ctx.cov["states"], 1)
